@@ -200,6 +200,22 @@ func init() {
 				oz, otherOwn = comps[i-1], true // unset / rev / none
 			}
 		}
+		if svcMode == 1 && otherOwn {
+			// the second service's effective options (its own over the default) must be usable, too
+			if e := pick(dp, op); e.name != "unset" {
+				note(e.bad)
+			}
+			if e := oc; e.name != "unset" {
+				note(e.bad)
+			} else if dc.name != "unset" {
+				note(dc.bad)
+			}
+			if e := oz; e.name != "unset" {
+				note(e.bad)
+			} else if dz.name != "unset" {
+				note(dz.bad)
+			}
+		}
 		// rules
 		nRules := c.Choose("rules", 3)
 		type ruleSpec struct {
